@@ -98,6 +98,8 @@ fn find_and_play_best_move(
     // keep looking until we are out of time
     // also add a guard to ensure we at least get a move from the search thread
     while !out_of_time(start, time_to_move_ms) || best_move.is_none() {
+        #[cfg(walleye_verif)]
+        crate::verif::sched_point("poll");
         if let Ok(b) = rx.try_recv() {
             best_move = Some(b);
         } else {
